@@ -252,6 +252,9 @@ def matmul(a, b):
     # when a is 2-d, we need to transpose result after dot
     if a.ndim <= 2:
         res = dot(a, b)
+        if a.ndim == 1:
+            # no row axis of `a` to move: dot already gives b.shape[:-2] + (b.shape[-1],)
+            return res
         axes = list(range(res.ndim))
         axes.insert(-1, axes.pop(0))
         return res.transpose(axes)
